@@ -57,6 +57,11 @@
  */
 
 #include "cppcheckexecutor.h"
+#include "errortypes.h"
+
+#include <cstdlib>
+#include <exception>
+#include <iostream>
 
 /**
  * Main function of cppcheck
@@ -67,6 +72,17 @@
  */
 int main(int argc, char* argv[])
 {
-    CppCheckExecutor exec;
-    return exec.check(argc, argv);
+    // nothing may leave main(): an exception raised while the command line, a project file, a library/platform/addon
+    // description or the whole program analysis is processed must end the run with an error message, not with terminate()
+    try {
+        CppCheckExecutor exec;
+        return exec.check(argc, argv);
+    } catch (const InternalError &e) {
+        std::cerr << "cppcheck: error: internal error: " << e.errorMessage << std::endl;
+    } catch (const std::exception &e) {
+        std::cerr << "cppcheck: error: " << e.what() << std::endl;
+    } catch (...) {
+        std::cerr << "cppcheck: error: unknown exception" << std::endl;
+    }
+    return EXIT_FAILURE;
 }
